@@ -233,22 +233,20 @@ impl TmpNodes {
             r matches Err(e) ==> e is Io || e is Heed
     { unimplemented!() }
     /// the real `put` asserts item != ItemId::MAX
+    /// representation invariant of the concrete structure (unit tmp_nodes); nothing to say at this level of abstraction.
+    /// The contracts of put / remap / remove below are the shared files that unit `tmp_nodes` PROVES on the real bodies.
+    pub open spec fn wf(&self) -> bool { true }
     #[verifier::external_body]
     pub fn put(&mut self, item: ItemId, data: &Node) -> (r: heed::Result<()>)
-        requires item != u32::MAX, !(data is Leaf)
-        ensures
-            final(self).allocated() == old(self).allocated(), final(self).rm() == old(self).rm(), final(self).taken() == old(self).taken(),
-            r is Ok ==> final(self).tv() == (TmpV { puts: old(self).tv().puts.insert(item, tnode_of(*data)), deleted: old(self).tv().deleted }),
-            r matches Err(e) ==> (e is Io || e is Heed) && final(self).tv() == old(self).tv(),
+//@paste lib/contracts/tmpnodes_put.spec
     { unimplemented!() }
     /// the put made under `current` is written back under `new`
     #[verifier::external_body]
     pub fn remap(&mut self, current: ItemId, new: ItemId)
-        ensures final(self).allocated() == old(self).allocated(), final(self).taken() == old(self).taken(), final(self).tv() == old(self).tv(),
-            final(self).rm() == (if current != new { old(self).rm().insert(current, new) } else { old(self).rm() })
+//@paste lib/contracts/tmpnodes_remap.spec
     { unimplemented!() }
     #[verifier::external_body]
     pub fn remove(&mut self, item: ItemId)
-        ensures final(self).allocated() == old(self).allocated(), final(self).rm() == old(self).rm(), final(self).taken() == old(self).taken(), final(self).tv() == (TmpV { puts: old(self).tv().puts, deleted: old(self).tv().deleted.insert(item) })
+//@paste lib/contracts/tmpnodes_remove.spec
     { unimplemented!() }
 }
